@@ -8,10 +8,10 @@ PID = "C01"
 MANIFEST_ENTRY = {
  "level_claimed": {
   "category": "proof",
-  "text": "proof (partial: all four stages proved for the program the AST compiler Model/CompileExpr.v emits, with nested expressions labelled by the jump-table indices of their bodies - which is what a host sees of an expression value; the agreement of that compiler with the builder on every AST and the parser round trip are validated on every run and proved only up to a bound). Theorems in coq/Properties/C01.v relate three Coq objects: the reference evaluator Spec/Eval.v (big-step, on the AST of Spec/Ast.v, written from the property text), the AST compiler Model/CompileExpr.v (emits the instruction and jump tables in build.rs's layout) and the runtime model Model/Machine.v (one step per execute_current_instruction, every operation of runtime/src/runtime/*.rs on value trees). C01_full_statement is stated over the builder model (Model/Parser.v + Model/BuilderWL.v on the printed tokens) and proved wherever it and the AST compiler produce the same program (C01_full_where_builder_agrees). END TO END, unbounded, on the operator fragment frag_e2e of Spec/Fragment.v (literals, `$`, identifiers, round groups, all prefix / suffix / binary operators incl. pair, access and the apply forms, space and comma lists, `&&` `||`, conditionals and else-chains, nested expressions `{ body }` with a one-expression body - functions and calls -, `^~` loops; not side-effect blocks and separators): C01_wl_agrees_fragment (for every printable AST of the fragment the builder model on the parser model's result for the printed tokens IS the AST compiler's program - printer/reference-parser round trip, C02, builder converse BuildOk.v, compile_agrees_full, and an induction relating the two compilers, Proofs/C01/EndToEnd) and hence C01_full_fragment / C01_full_fragment_plain / C01_full_fragment_operators: C01_full_statement restricted to the fragment is a theorem over the parser, builder and machine models. C01_all_constructs_partial: for EVERY printable program of the core grammar outside the two known-finding classes (every construct: literals, `$`, identifiers, groups, unary and binary arithmetic, bitwise, comparison, equality, `^^ !! ??`, pairs, access, internal accessors, space and comma lists, sub-expression sequences, side-effect blocks, `&&`/`||`, conditionals and else-chains, nested expressions, `<~`, `~>`, `~~`, `^~` loops), every input value and every host declining defer_op: if the evaluator yields v with host state h' and trace t, the compiled program run from its entry with that input reaches End with current value v, host state h' and observable host trace t - forward simulation by induction on the evaluator's fuel over five mutually recursive readings (expression, list items, else-chain, apply, expression body), with out-of-line bodies located through the jump table and `^~` as a restart outcome. Stage corollaries C01_arith_partial, C01_data_partial, C01_control_partial; C01_compile_builder_bounded_3 (compiler = Model/BuilderWL.v on the printed tokens for every AST of at most 3 constructors, by computation); C01_K1_refuted / C01_K2_refuted (the known-finding classes are real). Every run re-ties the three objects to /repo: the printed text of every generated AST is lexed/parsed/built/executed by the real pipeline on both data implementations and compared with the compiler's tables (and with Model/BuilderWL.v on the printed tokens), with the machine model's run (value, stack depths, step count, all host calls) and with the evaluator's answer (final value, resolve/apply trace).",
+  "text": "proof (partial: all four stages proved for the program the AST compiler Model/CompileExpr.v emits, with nested expressions labelled by the jump-table indices of their bodies - which is what a host sees of an expression value; the agreement of that compiler with the builder on every AST and the parser round trip are validated on every run and proved only up to a bound). Theorems in coq/Properties/C01.v relate three Coq objects: the reference evaluator Spec/Eval.v (big-step, on the AST of Spec/Ast.v, written from the property text), the AST compiler Model/CompileExpr.v (emits the instruction and jump tables in build.rs's layout) and the runtime model Model/Machine.v (one step per execute_current_instruction, every operation of runtime/src/runtime/*.rs on value trees). C01_full_statement is stated over the builder model (Model/Parser.v + Model/BuilderWL.v on the printed tokens) and proved wherever it and the AST compiler produce the same program (C01_full_where_builder_agrees). END TO END, unbounded, on the operator fragment frag_e2e of Spec/Fragment.v (literals, `$`, identifiers, round groups, all prefix / suffix / binary operators incl. pair, access and the apply forms, space and comma lists, `&&` `||`, conditionals and else-chains, nested expressions `{ body }` - functions and calls -, `^~` loops, `;` sequences at the top of a program or of a `{ }` body; not side-effect blocks and the blank-line separator): C01_wl_agrees_fragment (for every printable AST of the fragment the builder model on the parser model's result for the printed tokens IS the AST compiler's program - printer/reference-parser round trip, C02, builder converse BuildOk.v, compile_agrees_full, and an induction relating the two compilers, Proofs/C01/EndToEnd) and hence C01_full_fragment / C01_full_fragment_plain / C01_full_fragment_operators: C01_full_statement restricted to the fragment is a theorem over the parser, builder and machine models. C01_all_constructs_partial: for EVERY printable program of the core grammar outside the two known-finding classes (every construct: literals, `$`, identifiers, groups, unary and binary arithmetic, bitwise, comparison, equality, `^^ !! ??`, pairs, access, internal accessors, space and comma lists, sub-expression sequences, side-effect blocks, `&&`/`||`, conditionals and else-chains, nested expressions, `<~`, `~>`, `~~`, `^~` loops), every input value and every host declining defer_op: if the evaluator yields v with host state h' and trace t, the compiled program run from its entry with that input reaches End with current value v, host state h' and observable host trace t - forward simulation by induction on the evaluator's fuel over five mutually recursive readings (expression, list items, else-chain, apply, expression body), with out-of-line bodies located through the jump table and `^~` as a restart outcome. Stage corollaries C01_arith_partial, C01_data_partial, C01_control_partial; C01_compile_builder_bounded_3 (compiler = Model/BuilderWL.v on the printed tokens for every AST of at most 3 constructors, by computation); C01_K1_refuted / C01_K2_refuted (the known-finding classes are real). Every run re-ties the three objects to /repo: the printed text of every generated AST is lexed/parsed/built/executed by the real pipeline on both data implementations and compared with the compiler's tables (and with Model/BuilderWL.v on the printed tokens), with the machine model's run (value, stack depths, step count, all host calls) and with the evaluator's answer (final value, resolve/apply trace).",
   "design_ref": "DESIGN.md section 8 C01"
  },
- "level_note": "Trusted: Coq kernel; Flocq's standard-library axioms (through Model/Num.v); extraction (ExtrOcamlBasic only); harness/src/bin/exec.rs, ocaml/exec_driver.ml, tools/execlib.py. Not proved: that CompileExpr equals the builder model outside the fragment frag_e2e (side-effect blocks, separators also inside nested bodies: validated on every generated program of every run, and by a bounded theorem; inside the fragment it is C01_wl_agrees_fragment), the parser round trip outside that fragment (C02's reference parser is undefined there), per-operation agreement of the value-level operations with the two data stores (C15/C16), the theorems take nested-expression labels to be the jump-table indices (a host can inspect an expression value, so no statement for arbitrary labels holds for arbitrary hosts; the checks compare up to renaming). Symbol hashing is an injective oracle; float power is outside the model. Known findings C01-K1 (else-chain without a final else pushes nothing when no condition holds) and C01-K2 (`^~` inside a side-effect block leaves the block's input on the value stack) are excluded and re-confirmed on every run.",
+ "level_note": "Trusted: Coq kernel; Flocq's standard-library axioms (through Model/Num.v); extraction (ExtrOcamlBasic only); harness/src/bin/exec.rs, ocaml/exec_driver.ml, tools/execlib.py. Not proved: that CompileExpr equals the builder model outside the fragment frag_e2e (side-effect blocks, blank-line separators: validated on every generated program of every run, and by a bounded theorem; inside the fragment it is C01_wl_agrees_fragment), the parser round trip outside that fragment (C02's reference parser is undefined there), per-operation agreement of the value-level operations with the two data stores (C15/C16), the theorems take nested-expression labels to be the jump-table indices (a host can inspect an expression value, so no statement for arbitrary labels holds for arbitrary hosts; the checks compare up to renaming). Symbol hashing is an injective oracle; float power is outside the model. Known findings C01-K1 (else-chain without a final else pushes nothing when no condition holds) and C01-K2 (`^~` inside a side-effect block leaves the block's input on the value stack) are excluded and re-confirmed on every run.",
  "technique": "Coq proof (forward simulation by induction on the big-step evaluation, code located at offsets) over executable models + differential correspondence of compiler, runtime model and reference evaluator with the Rust pipeline on both data implementations"
 }
 
